@@ -145,13 +145,14 @@ func WriteReplay(test string, data []byte) string {
 // earlier guarded calls have exited) and returns the count: the baseline for quiescence waits.
 func StableGoroutines() int {
 	last, same := runtime.NumGoroutine(), 0
-	for i := 0; i < 100000 && same < 200; i++ {
+	since := time.Now()
+	for i := 0; i < 1000000 && (same < 200 || time.Since(since) < 300*time.Microsecond); i++ {
 		runtime.Gosched()
 		n := runtime.NumGoroutine()
 		if n == last {
 			same++
 		} else {
-			last, same = n, 0
+			last, same, since = n, 0, time.Now()
 		}
 	}
 
